@@ -42,7 +42,7 @@ func runC10(c *Ctx) {
 	runC10R3(c, "R3-split-join-agreement")
 	runC10R4(c, "R4-stale-parts-expired")
 	runC10R5(c, "R5-size-bound")
-	runC11R3R4(c, "R6-clear", "R6-clear")
+	runC11R3R4(c, "R6-clear", "R6-clear", true)
 	runManagerClearRule(c, "R6-clear")
 	runC10R7(c, "R7-ticket-encoding-agreement")
 	runC10R8(c, "R8-codec-streams-unbounded")
